@@ -39,6 +39,9 @@ pub fn run() {
         }
         let a = kv(&line);
         let id: u64 = a["id"].parse().unwrap();
+        // no scenario takes longer than a few watchdog periods: a main thread that is stuck for good (a deadlocked registration, say)
+        // ends the process instead of waiting for the caller's patience to run out
+        unsafe { libc::alarm(60) };
         if a.get("op").map(|s| s == "reenter").unwrap_or(false) {
             // a callback that uses the proxy itself: on every message it registers a reply route (whose channel already holds one
             // message).  The messages of the outer route are queued BEFORE it is registered.  Nothing may deadlock: every outer
